@@ -17,8 +17,10 @@ import (
 	"sort"
 	"strings"
 
+	"github.com/pilosa/pilosa/internal/vkit"
 	"github.com/pilosa/pilosa/pql"
 	"github.com/pilosa/pilosa/roaring"
+	"github.com/pilosa/pilosa/syswrap"
 	"pgregory.net/rapid"
 )
 
@@ -61,11 +63,18 @@ type vgfCfg struct {
 	MaxOpN    int
 	Bg        bool // snapshots go to a queue owned by the harness (else: synchronous, as without a holder)
 	Shard     uint64
+	FileLimit bool // the process is over its open-file limit (syswrap max file count): the data file is closed between operations
 }
 
 func (c vgfCfg) String() string {
-	return fmt.Sprintf("{kind=%s cache=%s/%d maxOpN=%d bgQueue=%v shard=%d}", c.Kind, c.Cache, c.CacheSize, c.MaxOpN, c.Bg, c.Shard)
+	s := fmt.Sprintf("{kind=%s cache=%s/%d maxOpN=%d bgQueue=%v shard=%d", c.Kind, c.Cache, c.CacheSize, c.MaxOpN, c.Bg, c.Shard)
+	if c.FileLimit {
+		s += " fileLimitExceeded"
+	}
+	return s + "}"
 }
+
+const vgfDefaultMaxFileCount = 500000 // syswrap's default (there is no getter)
 
 func vgfGenCfg(t *rapid.T, label string, kinds []string, caches []string, sizes []uint32) vgfCfg {
 	c := vgfCfg{}
@@ -79,6 +88,7 @@ func vgfGenCfg(t *rapid.T, label string, kinds []string, caches []string, sizes 
 	c.MaxOpN = rapid.SampledFrom([]int{2, 5, 12, 40, defaultFragmentMaxOpN}).Draw(t, label+".maxOpN")
 	c.Bg = rapid.Bool().Draw(t, label+".bg")
 	c.Shard = rapid.SampledFrom([]uint64{0, 0, 1, 5}).Draw(t, label+".shard")
+	c.FileLimit = rapid.IntRange(0, 3).Draw(t, label+".fileLimit") == 0
 	return c
 }
 
@@ -315,6 +325,19 @@ func vgfNew(t *rapid.T, cfg vgfCfg, dir, name string) *vgfM {
 	if cfg.Bg {
 		m.q = make(chan *fragment, 1)
 	}
+	// process-global; rapid runs the cases one after the other, and every case sets it
+	if cfg.FileLimit {
+		syswrap.SetMaxFileCount(0)
+	} else {
+		syswrap.SetMaxFileCount(vgfDefaultMaxFileCount)
+	}
+	if m.cfg.FileLimit && vkit.Open("DF7") {
+		// open finding DF7: over the file limit a snapshot triggered in the middle of a write closes the data file and the
+		// rest of that write is not logged; keep MaxOpN-triggered snapshots out of file-limit cases (snapshots at the end of
+		// setRow/clearRow/large importValue and explicit ones remain)
+		vkit.Excluded("DF7")
+		m.cfg.MaxOpN = defaultFragmentMaxOpN
+	}
 	m.f = m.newFrag()
 	if err := m.f.Open(); err != nil {
 		t.Fatalf("open fragment: %v", err)
@@ -397,6 +420,7 @@ func (m *vgfM) withWorker(fn func()) {
 
 func (m *vgfM) close() {
 	m.drain()
+	syswrap.SetMaxFileCount(vgfDefaultMaxFileCount)
 	if err := m.f.Close(); err != nil {
 		m.fail("Close: %v", err)
 	}
@@ -659,6 +683,12 @@ func (m *vgfM) apply(op vgfOp) {
 }
 
 func (m *vgfM) apply1(op vgfOp) {
+	if m.cfg.FileLimit && op.Name == "roaring" && vkit.Open("DF6") {
+		// open finding DF6: importRoaring does not reopen the data file, the import is not logged
+		vkit.Excluded("DF6")
+		m.hist = append(m.hist, "(skipped: "+op.String()+")")
+		return
+	}
 	if op.Name == "importValue" && op.Clear && op.Stored {
 		op.Vals = append([]int64(nil), op.Vals...)
 		for i, c := range op.Cols {
